@@ -108,6 +108,11 @@ def judge(decls, der_vars, shape, in_initial, nested):
 
 
 SIBLINGS = [
+    # a state whose der() argument is an EMPTY slice (n = 1): it is still a state and still has its one derivative variable
+    ("model M parameter Integer n = 1; Real x[n]; Real T; equation der(T) = 1; x[1] = T; der(x[2:n]) = x[1:n-1]; end M;",
+     {"states": ["x", "T"], "alg_states": [], "inputs": []}, ["der(x)", "der(T)"]),
+    ("model M parameter Integer n = 3; Real x[n]; Real T; equation der(T) = 1; x[1] = T; der(x[2:n]) = x[1:n-1]; end M;",
+     {"states": ["x", "T"], "alg_states": [], "inputs": []}, ["der(x)", "der(T)"]),
     # two instances of one class, only one of them differentiated by the enclosing model; a top-level and a nested use of one class
     ("model M model Tank Real h; input Real qin; output Real level; equation level = h; end Tank; Tank a; Tank b; equation der(a.h) = a.qin; b.h = 2 * b.qin; a.qin = 1; b.qin = 1; end M;",
      {"states": ["a.h"], "alg_states": ["a.qin", "a.level", "b.h", "b.qin", "b.level"], "inputs": []}, ["der(a.h)"]),
